@@ -235,6 +235,12 @@ def run(res, tier):
            key='META-TABLE|%s|negate-last' % g.q,
            message='SegmentedStringMatcher::SetPattern calls SetNegate(true) before SetPatternAux(), whose Clear() resets the flag: the leading ~ is stripped but the negation is lost, so `~foo/b*` '
                    'matches exactly what `foo/b*` matches')
+    # StringMatcher::Match: every result goes through the negation (single exit that applies the NEGATE flag)
+    g = fx.fn1(SM + '::Match', pred=lambda h: h.full and h.file.endswith('StringMatcher.cpp') and any(x['k'] == 'MemberExpr' and x.get('n') == '_ranges' for x in h.walk()))
+    rets = [r for r in g.walk() if r['k'] == 'ReturnStmt' and r['ch']]
+    okn = bool(rets) and all(any(x.get('n') == 'STRINGMATCHER_FLAG_NEGATE' for x in r.walk()) or any(x.is_call() and (x.get('q') or '').endswith('::IsNegate') for x in r.walk()) for r in rets)
+    res.ob('META-TABLE', g.where(), 'every return of StringMatcher::Match applies the negate flag', okn, how='%d return(s)' % len(rets), function=g.q, key='META-TABLE|%s|negate-on-every-return' % g.q,
+           message='StringMatcher::Match has a return that bypasses the negation: for a subject inside one of the numeric ranges `~<5-10>` matches exactly like `<5-10>`')
     sm_state.regex_valid_rule(res, fx)
     sm_state.ranges_reset_rule(res, fx)
     res.explanation = ('Static decision of two table-agreement clauses of C15: the special-character tables are extracted from the resolved AST (comparisons against str[0], the cases of the translation switch and '
